@@ -38,12 +38,16 @@ def freshness_acceptor(ctx):
     ix = ctx.ix
     f = ix.func(FP + ":FreshnessDateDataParser._are_all_words_units")
     skip = None
+    sname = None
     for n in iter_own_nodes(f.node):
-        if isinstance(n, ast.Assign) and any(isinstance(t, ast.Name) and t.id == "skip" for t in n.targets):
-            skip = fold_list(n.value, f, ix)
+        if isinstance(n, ast.Assign) and isinstance(n.value, ast.List) and len(n.value.elts) >= 2 and isinstance(n.targets[0], ast.Name):
+            v = fold_list(n.value, f, ix)
+            if v is not None and any("ago" in x for x in v):
+                skip, sname = v, n.targets[0].id
     t = " ".join(ast.unparse(f.node).split())
-    for frag in ("re.split('\\\\W', date_string)", "if not re.match('%s' % '|'.join(skip), x)", "return not words"):
-        if frag not in t:
+    import re as _re
+    for frag in (r"re\.split\('\\\\W', date_string\)", r"if not re\.match\('%%s' %% '\|'\.join\(%s\), (\w+)\)" % (sname or "skip"), r"return not (\w+)"):
+        if not _re.search(frag, t):
             raise AnalysisError("C06.model", "_are_all_words_units shape changed (missing %r)" % frag)
     if skip is None:
         raise AnalysisError("C06.model", "_are_all_words_units.skip is not constant")
@@ -54,7 +58,7 @@ def freshness_acceptor(ctx):
         fl |= {"re.I": regex.I, "re.S": regex.S, "re.U": regex.U, "": 0}.get(part, 0)
     pd = ix.func(FP + ":FreshnessDateDataParser._parse_date")
     t2 = " ".join(ast.unparse(pd.node).split())
-    if "if not self._are_all_words_units(date_string): return (None, None)" not in t2 or "if not kwargs: return (None, None)" not in t2:
+    if "if not self._are_all_words_units(date_string): return (None, None)" not in t2 or not _re.search(r"(\w+) = self\.get_kwargs\(date_string\) if not \1: return \(None, None\)", t2):
         raise AnalysisError("C06.model", "_parse_date acceptance tests changed")
     return regex.compile("|".join(skip)), regex.compile(ptxt, fl)
 
@@ -153,8 +157,9 @@ def run(ctx, chk):
     # _generate_relative_translations conformance
     g = ctx.ix.func("dateparser.languages.locale:Locale._generate_relative_translations")
     t = " ".join(ast.unparse(g.node).split())
-    for frag in ("pattern.replace('(\\\\d+', '(?P<n>\\\\d+')", "'^(?:{})$'.format(pattern)", "sorted(value, key=len, reverse=True)", "relative_dictionary[pattern] = key"):
-        if frag not in t:
+    import re as _re
+    for frag in (r"(\w+)\.replace\('\(\\\\d\+', '\(\?P<n>\\\\d\+'\)", r"'\^\(\?:\{\}\)\$'\.format\((\w+)\)", r"sorted\((\w+), key=len, reverse=True\)", r"(\w+)\[(\w+)\] = (\w+)"):
+        if not _re.search(frag, t):
             raise AnalysisError("C06.model", "_generate_relative_translations shape changed (missing %r)" % frag)
     todo = [(ctx.repo.root, ctx.repo.overlay, lang, loc, acc_src) for lang, loc in ld.all_locales()]
     jobs = int(os.environ.get("VERIF_JOBS", "16"))
